@@ -1803,6 +1803,8 @@ size_t rtosc_scan_arg_val(const char* src,
                 sscanf(src, " %2d:%2d%n", &m_tm.tm_hour, &m_tm.tm_min, &rd);
                 if(rd)
                  src+=rd;
+                else // no clock time: a number that follows is the next value
+                 m_tm.tm_hour = m_tm.tm_min = 0;
 
                 rd = 0;
                 sscanf(src, ":%2d%n", &m_tm.tm_sec, &rd);
@@ -1813,7 +1815,7 @@ size_t rtosc_scan_arg_val(const char* src,
 
                 // lossless format is appended in parentheses?
                 //  => take it directly from there
-                if(skip_fmt(&src, "%*f (%n"))
+                if(*src == '.' && skip_fmt(&src, "%*f (%n"))
                 {
                     sscanf(src, " ... + 0x%8"PRIx64"p-32 s )%n",
                            &secfracs, &rd);
